@@ -254,6 +254,9 @@ Definition add_entry (s : fstate) (parent : key) (name : str) (mk : mtime -> N -
   mkFstate (touch_dir f1 parent t) (st_clock s1).
 
 Definition fs_mkdir (s : fstate) (p : str) (perm : N) : res unit * fstate :=
+  (* mkdir("name/"): trailing separators do not make the kernel follow a symlink
+     in the last component (it exists: EEXIST) *)
+  let p := match strip_trailing_seps p with [] => p | q => q end in
   match resolve (st_fs s) p false with
   | WFound _ _ => (Err EEXIST, s)
   | WMissing parent name _ =>
@@ -272,7 +275,7 @@ Fixpoint fs_mkdirall_aux (fuel : nat) (s : fstate) (p : str) (perm : N) : res un
       match fs_stat s p with
       | Ok fi => match fi_kind fi with KDir => (Ok tt, s) | _ => (Err ENOTDIR, s) end
       | Err _ =>
-          let parent := upto_last_sep (strip_trailing_seps p) in
+          let parent := removelast (upto_last_sep (strip_trailing_seps p)) in
           let '(r, s1) :=
             match parent with
             | [] => (Ok tt, s)
